@@ -35,14 +35,28 @@ type scase struct {
 	Race       bool   `json:"race,omitempty"`
 	Route      string `json:"route,omitempty"`  // downstream (default) | direct (in-memory transport only)
 	IdleS      int    `json:"idle_s,omitempty"` // long-lived tunnels: stay silent this many seconds, then talk again in both directions
+	// HalfIdleS: after that, one end of every tunnel (client of the even ones,
+	// target of the odd ones) half-closes; the tunnels stay silent this many
+	// seconds more, then the still-open direction carries data again.
+	HalfIdleS int `json:"half_idle_s,omitempty"`
+	// SameHost: all tunnels of a round CONNECT to one and the same authority
+	// (downstream route; the harness tells them apart by the X-Case header).
+	SameHost bool `json:"same_host,omitempty"`
+	// Stagger: the tunnels of a round end one after the other; after each one
+	// the remaining ones carry data again in both directions.
+	Stagger bool `json:"stagger,omitempty"`
+	// FailedDials: this many CONNECTs whose dial fails (all error kinds) are
+	// sent through the same proxy, spread over the rounds, before the tunnels
+	// of each round are opened (direct route).
+	FailedDials int `json:"failed_dials,omitempty"`
 }
 
 // genAged draws a long-lived-tunnel case: the tunnels of one round exchange
 // data, stay silent for idle seconds (a lower bound, not a verdict), then both
 // ends of each talk again before closing.
-func genAged(r *vh.Run, stream string, g int, transport, route string, idle int) scase {
+func genAged(r *vh.Run, stream string, g int, transport, route string, idle, halfIdle int) scase {
 	rng := r.Rng(stream, g)
-	return scase{Kind: "swarm", Stream: stream, Idx: g, Transport: transport, N: 6 + rng.Intn(7), Rounds: 1, Route: route, IdleS: idle,
+	return scase{Kind: "swarm", Stream: stream, Idx: g, Transport: transport, N: 6 + rng.Intn(7), Rounds: 1, Route: route, IdleS: idle, HalfIdleS: halfIdle,
 		ModDelayUS: []int{0, 300}[rng.Intn(2)]}
 }
 
@@ -52,6 +66,14 @@ func genSwarm(r *vh.Run, stream string, g int, transport string, race bool) scas
 	c.N = 4 + rng.Intn(13)
 	c.Rounds = 3 + rng.Intn(3)
 	c.ModDelayUS = []int{0, 300, 2000, 2000}[g%4]
+	// fixed functions of the index, so that every run has every combination
+	c.Stagger = g%4 != 2
+	if transport == "pipe" && g%4 == 1 {
+		c.Route = "direct"
+		c.FailedDials = 16 * c.Rounds // more failed dials than any plausible bound on concurrent ones
+	} else {
+		c.SameHost = g%2 == 0
+	}
 	return c
 }
 
@@ -92,6 +114,7 @@ type swarm struct {
 	events int64
 	mu     sync.Mutex
 	byHost map[string]*stun
+	byNo   map[int]*stun
 	tuns   []*stun
 	conns  []net.Conn
 	pxEnds []*vh.PipeConn
@@ -127,8 +150,12 @@ func (s *swarm) ModifyResponse(res *http.Response) error {
 	if res.Request == nil {
 		return nil
 	}
+	no, err := strconv.Atoi(res.Request.Header.Get("X-Case"))
+	if err != nil {
+		return nil
+	}
 	s.mu.Lock()
-	t := s.byHost[res.Request.Host]
+	t := s.byNo[no]
 	s.mu.Unlock()
 	if t != nil && t.modDelay > 0 {
 		time.Sleep(t.modDelay)
@@ -150,9 +177,17 @@ func (s *swarm) serveDS(conn net.Conn) {
 		conn.Close()
 		return
 	}
-	s.mu.Lock()
-	t := s.byHost[f[1]]
-	s.mu.Unlock()
+	var t *stun
+	if v := h.Get("X-Case"); len(v) == 1 {
+		if no, err := strconv.Atoi(v[0]); err == nil {
+			s.mu.Lock()
+			t = s.byNo[no]
+			s.mu.Unlock()
+		}
+	}
+	if t != nil && t.host != f[1] {
+		t = nil
+	}
 	if t == nil {
 		conn.Write([]byte("HTTP/1.1 404 Not Found\r\nContent-Length: 0\r\n\r\n"))
 		conn.Close()
@@ -193,7 +228,7 @@ func runSwarm(r *vh.Run, c scase, budget *tunx.Budget) {
 	if len(vh.MartianGoroutines()) != 0 {
 		vh.Await(func() bool { return len(vh.MartianGoroutines()) == 0 }, vh.AwaitOpts{})
 	}
-	s := &swarm{r: r, c: c, budget: budget, byHost: map[string]*stun{}}
+	s := &swarm{r: r, c: c, budget: budget, byHost: map[string]*stun{}, byNo: map[int]*stun{}}
 	p := martian.NewProxy()
 	p.SetTimeout(proxyTimeout)
 	if c.ModDelayUS > 0 {
@@ -214,7 +249,8 @@ func runSwarm(r *vh.Run, c scase, budget *tunx.Budget) {
 			t := s.byHost[addr]
 			s.mu.Unlock()
 			if (c.Route == "direct") != (t != nil) || (c.Route != "direct" && addr != "downstream.c04.example:3128") {
-				return nil, fmt.Errorf("dial %s: connection refused (harness)", addr)
+				kinds := []string{"refused", "timeout", "generic", "dns", "unreachable"}
+				return nil, dialError(kinds[len(addr)%len(kinds)], network, addr)
 			}
 			px, tg := vh.Pipe(65536, "10.1.1.1:40000", addr)
 			s.mu.Lock()
@@ -313,6 +349,9 @@ func runSwarm(r *vh.Run, c scase, budget *tunx.Budget) {
 		for k := 0; k < c.N; k++ {
 			rng := r.Rng(c.Stream+"/tun", c.Idx*4096+no)
 			t := &stun{no: no, host: fmt.Sprintf("t%d.r%d.c04.example:443", no, round)}
+			if c.SameHost {
+				t.host = fmt.Sprintf("shared.r%d.c04.example:443", round)
+			}
 			t.first = 1 + rng.Intn(3000)
 			t.trest = []int{0, rng.Intn(3000), rng.Intn(40000)}[rng.Intn(3)]
 			if rng.Intn(3) == 0 {
@@ -327,9 +366,54 @@ func runSwarm(r *vh.Run, c scase, budget *tunx.Budget) {
 			tuns = append(tuns, t)
 			s.mu.Lock()
 			s.byHost[t.host] = t
+			s.byNo[t.no] = t
 			s.tuns = append(s.tuns, t)
 			s.mu.Unlock()
 			no++
+		}
+		// history on this proxy: CONNECTs whose dial fails, in concurrent bursts
+		if c.FailedDials > 0 && pl != nil {
+			per := c.FailedDials / c.Rounds
+			var done, good int32
+			var firstBad atomic.Value
+			for k := 0; k < per; k++ {
+				k := k
+				go func() {
+					defer atomic.AddInt32(&done, 1)
+					defer atomic.AddInt64(&s.events, 1)
+					cl, sv, err := pl.Dial(65536, nil)
+					if err != nil {
+						return
+					}
+					s.mu.Lock()
+					s.pxEnds = append(s.pxEnds, sv)
+					s.mu.Unlock()
+					s.track(cl)
+					defer cl.Close()
+					host := fmt.Sprintf("dead%d.r%d.%s.c04.example:443", k, round, strings.Repeat("x", k%5))
+					if _, err := cl.Write([]byte(renderHead(host, 100000+k))); err != nil {
+						return
+					}
+					h, err := tunx.ReadHead(bufio.NewReader(cl))
+					switch {
+					case err != nil:
+						firstBad.Store("connection ended without a response head: " + err.Error())
+					case h.Status() != 502 || len(h.Get("Warning")) == 0:
+						firstBad.Store(fmt.Sprintf("answered %q with %d Warning headers", h.Line, len(h.Get("Warning"))))
+					default:
+						atomic.AddInt32(&good, 1)
+					}
+				}()
+			}
+			if !await("C04:unreachable-502:direct", fmt.Sprintf("round %d: %d CONNECTs to undiallable targets on a proxy that has already seen %d failed dials: a client has no response at quiescence", round, per, round*per),
+				func() bool { return int(atomic.LoadInt32(&done)) == per }) {
+				return
+			}
+			if v := firstBad.Load(); v != nil {
+				r.ViolationCase(c, "C04:unreachable-502:direct", fmt.Sprintf("CONNECT to an undiallable target (after %d earlier failed dials on this proxy) %v", round*per, v), nil)
+			}
+			r.Count("unreachable_502_observed", int64(atomic.LoadInt32(&good)))
+			r.Count("failed_dials_on_a_reused_proxy", int64(per))
 		}
 		// start the round: every tunnel in its own goroutine, staggered
 		var dialFail int32
@@ -395,7 +479,11 @@ func runSwarm(r *vh.Run, c scase, budget *tunx.Budget) {
 			}()
 		}
 		// every CONNECT answered
-		ok := await("C04:connect-response:downstream", "concurrent CONNECTs through the downstream proxy: a client has no response at quiescence", func() bool {
+		route := "downstream"
+		if c.Route == "direct" {
+			route = "direct"
+		}
+		ok := await("C04:connect-response:"+route, fmt.Sprintf("concurrent CONNECTs on one proxy (%s route, round %d): a client has no response at quiescence", route, round), func() bool {
 			for _, t := range tuns {
 				if atomic.LoadInt32(&t.headSeen) == 0 {
 					return false
@@ -413,7 +501,7 @@ func runSwarm(r *vh.Run, c scase, budget *tunx.Budget) {
 		}
 		for _, t := range tuns {
 			if atomic.LoadInt32(&t.headSeen) == 2 || atomic.LoadInt32(&t.status)/100 != 2 {
-				r.ViolationCase(c, "C04:connect-status:downstream", fmt.Sprintf("tunnel %d (%s): CONNECT through the downstream proxy answered status %d / error %v", t.no, t.host, atomic.LoadInt32(&t.status), t.headErr.Load()), nil)
+				r.ViolationCase(c, "C04:connect-status:"+route, fmt.Sprintf("tunnel %d (%s): CONNECT answered status %d / error %v", t.no, t.host, atomic.LoadInt32(&t.status), t.headErr.Load()), nil)
 				return
 			}
 			if line, _ := t.dsLine.Load().(string); c.Route != "direct" && line != "CONNECT "+t.host+" HTTP/1.1" {
@@ -439,72 +527,200 @@ func runSwarm(r *vh.Run, c scase, budget *tunx.Budget) {
 			}
 			return true
 		})
-		if c.IdleS > 0 && okD && okU {
-			// the tunnels stay open and silent (lower bound on their age), then
-			// every client and every target speaks again
-			time.Sleep(time.Duration(c.IdleS) * time.Second)
+		// talk: the given ends each write a short message; everything written on
+		// the tunnels ts must then arrive (quiescence)
+		talkNo := 0
+		talk := func(ts []*stun, clients, targets bool, what string) bool {
 			var pending int32
-			for _, t := range tuns {
-				rng := r.Rng(c.Stream+"/again", c.Idx*4096+t.no)
-				for _, x := range []struct {
-					e *end
-					n int
-				}{{t.cli(), 1 + rng.Intn(3000)}, {t.tgt(), 1 + rng.Intn(3000)}} {
-					x := x
+			talkNo++
+			for _, t := range ts {
+				rng := r.Rng(c.Stream+"/again", (c.Idx*4096+t.no)*64+talkNo%64)
+				var es []*end
+				if clients {
+					es = append(es, t.cli())
+				}
+				if targets {
+					es = append(es, t.tgt())
+				}
+				for _, e := range es {
+					e, n := e, 1+rng.Intn(3000)
 					atomic.AddInt32(&pending, 1)
 					go func() {
-						x.e.send(x.n, true)
+						e.send(n, true)
 						atomic.AddInt32(&pending, -1)
 						atomic.AddInt64(&s.events, 1)
 					}()
 				}
 			}
-			what := fmt.Sprintf("tunnels open for %d s and silent, then both ends wrote again: ", c.IdleS)
-			okD = await("C04:delivery-stalled:target-to-client:"+fam, what+"a client has not received what its target sent", func() bool {
+			d := await("C04:delivery-stalled:target-to-client:"+fam, what+"a client has not received what its target sent", func() bool {
 				if atomic.LoadInt32(&pending) != 0 {
 					return false
 				}
-				for _, t := range tuns {
+				for _, t := range ts {
 					if t.cli().Recv() < t.tgt().Sent() {
 						return false
 					}
 				}
 				return true
 			})
-			okU = await("C04:delivery-stalled:client-to-target:"+fam, what+"a target has not received what its client sent", func() bool {
+			u := await("C04:delivery-stalled:client-to-target:"+fam, what+"a target has not received what its client sent", func() bool {
 				if atomic.LoadInt32(&pending) != 0 {
 					return false
 				}
-				for _, t := range tuns {
+				for _, t := range ts {
 					if t.tgt().Recv() < t.cli().Sent() {
 						return false
 					}
 				}
 				return true
 			})
-			for _, t := range tuns {
-				if t.tgt().Term() != 0 || t.cli().Term() != 0 {
-					r.ViolationCase(c, "C04:eof-propagation:spurious:"+fam, fmt.Sprintf("tunnel %d: an end observed end-of-stream (client term=%d, target term=%d) although neither end had closed", t.no, t.cli().Term(), t.tgt().Term()), nil)
-					break
+			return d && u
+		}
+		noSpuriousEOS := func(ts []*stun, skipHalfClosedPeers bool) {
+			for _, t := range ts {
+				ct, tt := t.cli().Term(), t.tgt().Term()
+				if skipHalfClosedPeers {
+					// the peer of the end that half-closed has rightly seen end-of-stream
+					if t.no%2 == 0 {
+						tt = 0
+					} else {
+						ct = 0
+					}
+				}
+				if ct != 0 || tt != 0 {
+					r.ViolationCase(c, "C04:eof-propagation:spurious:"+fam, fmt.Sprintf("tunnel %d: an end observed end-of-stream (client term=%d, target term=%d) although its peer had not finished sending", t.no, t.cli().Term(), t.tgt().Term()), nil)
+					return
 				}
 			}
+		}
+		if c.IdleS > 0 && okD && okU {
+			// the tunnels stay open and silent (lower bound on their age), then
+			// every client and every target speaks again
+			time.Sleep(time.Duration(c.IdleS) * time.Second)
+			ok := talk(tuns, true, true, fmt.Sprintf("tunnels open for %d s and silent, then both ends wrote again: ", c.IdleS))
+			okD, okU = ok, ok
+			noSpuriousEOS(tuns, false)
 			r.Count("aged_tunnels", int64(len(tuns)))
 		}
-		// clients close; targets must see end-of-stream, then close; all released
-		for _, t := range tuns {
-			t.cli().closeFull()
-		}
-		atomic.AddInt64(&s.events, 1)
-		okE := await("C04:eof-propagation:client-closes-first", "concurrent tunnels: the clients closed, a target has not observed end-of-stream at quiescence", func() bool {
+		okE := true
+		halfDone := false
+		if c.HalfIdleS > 0 && okD && okU {
+			// one end of every tunnel finishes sending and half-closes; its peer must see
+			// end-of-stream, and the opposite direction must keep working however
+			// much later it is used
+			halfDone = true
+			var firsts, peers []*end
 			for _, t := range tuns {
-				if e := t.tgt(); e == nil || e.Term() == 0 {
-					return false
+				if t.no%2 == 0 {
+					firsts, peers = append(firsts, t.cli()), append(peers, t.tgt())
+				} else {
+					firsts, peers = append(firsts, t.tgt()), append(peers, t.cli())
 				}
 			}
-			return true
-		})
+			for _, e := range firsts {
+				e.closeHalf()
+			}
+			atomic.AddInt64(&s.events, 1)
+			okE = await("C04:eof-propagation:client-closes-first", "long-lived tunnels: one end of each half-closed, a peer has not observed end-of-stream at quiescence", func() bool {
+				for _, e := range peers {
+					if e.Term() == 0 {
+						return false
+					}
+				}
+				return true
+			})
+			time.Sleep(time.Duration(c.HalfIdleS) * time.Second) // lower bound, decides nothing
+			for round2 := 0; round2 < 2 && okE; round2++ {
+				var pending int32
+				for i, e := range peers {
+					e, n := e, 1+r.Rng(c.Stream+"/half", c.Idx*4096+i+round2*100).Intn(3000)
+					atomic.AddInt32(&pending, 1)
+					go func() {
+						e.send(n, true)
+						atomic.AddInt32(&pending, -1)
+						atomic.AddInt64(&s.events, 1)
+					}()
+				}
+				ok := await("C04:delivery-stalled:half-closed-tunnel:"+fam, fmt.Sprintf("one end of each tunnel half-closed %d s ago and keeps reading; its peer wrote again, but the bytes have not arrived at quiescence", c.HalfIdleS), func() bool {
+					if atomic.LoadInt32(&pending) != 0 {
+						return false
+					}
+					for i := range peers {
+						if firsts[i].Recv() < peers[i].Sent() {
+							return false
+						}
+					}
+					return true
+				})
+				if !ok {
+					okD, okU = false, false
+					break
+				}
+				noSpuriousEOS(tuns, true)
+			}
+			// the peers finish and close; the half-closed ends must see end-of-stream after everything
+			for _, e := range peers {
+				e.closeFull()
+			}
+			atomic.AddInt64(&s.events, 1)
+			ok2 := await("C04:eof-propagation:target-closes-first", "long-lived tunnels: the second end of each closed, a half-closed end has not observed end-of-stream at quiescence", func() bool {
+				for _, e := range firsts {
+					if e.Term() == 0 {
+						return false
+					}
+				}
+				return true
+			})
+			okE = okE && ok2
+			for _, e := range firsts {
+				e.closeFull()
+			}
+			atomic.AddInt64(&s.events, 1)
+			r.Count("half_closed_long_lived_tunnels", int64(len(tuns)))
+		}
+		if !halfDone && c.Stagger && okD && okU {
+			// the tunnels end one after the other; the others must not notice
+			left := append([]*stun(nil), tuns...)
+			for len(left) > 0 {
+				t := left[0]
+				left = left[1:]
+				t.cli().closeFull()
+				atomic.AddInt64(&s.events, 1)
+				if !await("C04:eof-propagation:client-closes-first", fmt.Sprintf("concurrent tunnels: the client of tunnel %d closed, its target has not observed end-of-stream at quiescence", t.no), func() bool { return t.tgt().Term() != 0 }) {
+					okE = false
+					break
+				}
+				t.tgt().closeFull()
+				atomic.AddInt64(&s.events, 1)
+				if len(left) > 0 && len(left)%3 != 2 { // exercise the others after most endings
+					if !talk(left, true, true, fmt.Sprintf("tunnel %d (same proxy) has just ended; the %d other tunnels wrote again: ", t.no, len(left))) {
+						okD, okU = false, false
+						break
+					}
+					noSpuriousEOS(left, false)
+				}
+			}
+			r.Count("staggered_rounds", 1)
+		} else if !halfDone {
+			// clients close; targets must see end-of-stream, then close; all released
+			for _, t := range tuns {
+				t.cli().closeFull()
+			}
+			atomic.AddInt64(&s.events, 1)
+			okE = await("C04:eof-propagation:client-closes-first", "concurrent tunnels: the clients closed, a target has not observed end-of-stream at quiescence", func() bool {
+				for _, t := range tuns {
+					if e := t.tgt(); e == nil || e.Term() == 0 {
+						return false
+					}
+				}
+				return true
+			})
+		}
 		for _, t := range tuns {
 			if e := t.tgt(); e != nil {
+				e.closeFull()
+			}
+			if e := t.cli(); e != nil {
 				e.closeFull()
 			}
 		}
@@ -583,7 +799,16 @@ func runSwarm(r *vh.Run, c scase, budget *tunx.Budget) {
 		nb = "8-11"
 	}
 	if c.IdleS > 0 {
-		md += "|idle=" + strconv.Itoa(c.IdleS) + "s|" + c.Route
+		md += "|idle=" + strconv.Itoa(c.IdleS) + "s+" + strconv.Itoa(c.HalfIdleS) + "s-half-closed|" + c.Route
+	}
+	if c.SameHost {
+		md += "|same-authority"
+	}
+	if c.Stagger {
+		md += "|staggered-ends"
+	}
+	if c.FailedDials > 0 {
+		md += "|failed-dials=" + strconv.Itoa(c.FailedDials)
 	}
 	r.Class("swarm|" + c.Transport + "|n=" + nb + "|moddelay=" + md + "|connects-in-flight=" + ob)
 	if c.Idx%8 == 1 {
